@@ -209,11 +209,15 @@ impl IndexRead {
     uninterp spec fn band_home(&self) -> Archive;
     uninterp spec fn band_sid(&self) -> BandId;
 
+    // Contract of the fallible constructor (proved in unit `hunkiter`: Ok(r) ⇒ r's hunk numbers are the
+    // complete listing of the index directory; a listing failure is an Err).  In gc's vocabulary: on Ok the
+    // iterator ranges over every hunk present in the band.
     #[verifier::external_body]
-    async fn iter_available_hunks(self) -> (r: IndexHunkIter)
+    async fn try_iter_available_hunks(self) -> (r: Result<IndexHunkIter>)
         ensures
-            r.all() == self.band_home().hunks_of(self.band_sid()),
-            r.taken() == Seq::<Seq<IndexEntry>>::empty(),
+            r matches Ok(it) ==> it.all() == self.band_home().hunks_of(self.band_sid())
+                && it.taken() == Seq::<Seq<IndexEntry>>::empty(),
+            r matches Err(e) ==> e is Other,
     { unimplemented!() }
 }
 
